@@ -69,7 +69,7 @@ fn snapshot(interp: &molt::Interp) -> Term {
     tl(names.iter().map(|n| tl(vec![ts(n), obs_var(interp, n)])).collect())
 }
 
-/// obs: (complete_host complete_info side_effect_free outcome trace)
+/// obs: (complete_host complete_info side_effect_free outcome trace same_after_typed_views)
 pub fn run(case: &Term) -> Term {
     let s = case.as_str().to_string();
     let (mut interp, ctx) = harness_interp(0);
@@ -86,5 +86,17 @@ pub fn run(case: &Term) -> Term {
     let pure = before == after && ncalls == 0;
     let r = interp.eval(&s);
     let calls: Vec<Term> = interp.context::<Recorder>(ctx).calls.iter().map(|c| tstrs(c)).collect();
-    tl(vec![tb(c1), c2, tb(pure), obs_result(&r), tl(calls)])
+    // the same text held in a value that has been looked at as a list, a dictionary and a number
+    // first: the evaluator must read the text, not whatever the value has cached
+    let (mut interp2, ctx2) = harness_interp(0);
+    let _ = interp2.eval("set a 0; set k(1) v");
+    let v = Value::from(s.as_str());
+    let _ = v.as_list();
+    let _ = v.as_dict();
+    let _ = v.as_int();
+    let _ = v.as_list();
+    let r2 = interp2.eval_value(&v);
+    let calls2: Vec<Term> = interp2.context::<Recorder>(ctx2).calls.iter().map(|c| tstrs(c)).collect();
+    let same = obs_result(&r2) == obs_result(&r) && calls2 == calls;
+    tl(vec![tb(c1), c2, tb(pure), obs_result(&r), tl(calls), tb(same)])
 }
